@@ -1,6 +1,7 @@
 //! chess-harness: runtime monitors for jordanbray/chess (see /verif/DESIGN.md).
 pub mod conv;
 pub mod corpus;
+pub mod fuzzplay;
 pub mod mon_game;
 pub mod mon_movegen;
 pub mod mon_san;
